@@ -14,6 +14,7 @@ delay: None (plain Event) or a decimal string ("0.3", "2"): DelayedEvent(delay=f
 then:  [[rid, delay], ...]  events the receiver sends from inside its handler when it handles the event.
 """
 import json
+import os
 import math
 from fractions import Fraction
 from common import *
@@ -64,6 +65,7 @@ class Sim:
         self.sent = {}             # seq -> dict(rid, delay, sent_at)
         self.issued = []           # sends since the last flush, in issue order: (seq, rid, delay)
         self.script = {}
+        self.stats_base = 0
 
     def make_event(self, sender, rid, delay, then):
         from BPTK_Py import Event, DelayedEvent
@@ -95,7 +97,8 @@ class Sim:
         elif k == "configure":
             m.configure_agents([{"name": TYPES[t], "count": n} for t, n in op[1]])
         elif k == "reset":
-            m.reset()
+            m.reset()                          # also empties event_statistics
+            self.stats_base = len(self.handled)
         elif k == "send":
             self.send(0, op[1], op[2], op[3])
         elif k == "broadcast":
@@ -159,6 +162,7 @@ def run_history(dt, ops):
     req, real = ["new", f"dt {frac_str(dt)}"], ["ok", "ok"]
     viol = []
     live_at = {}                       # step -> ids alive during that step
+    gone_log = []                      # (step, seqs that left the queue without being handled) - evidence only
     raised = None
     for op in ops:
         k = op[0]
@@ -169,9 +173,10 @@ def run_history(dt, ops):
             out = sim.apply(op)
         except Exception as e:          # run_step must not raise on any history
             raised = (op, e)
-            viol.append(("wrong-receiver" if isinstance(e, (IndexError, AttributeError)) else "raises",
+            absent = sorted({v["rid"] for v in sim.sent.values()} - set(sh.ids()))
+            viol.append(("receiver-lookup-raises" if isinstance(e, (IndexError, TypeError, AttributeError)) else "raises",
                          f"step {sim.step_no}: run_step raises {type(e).__name__}: {e} "
-                         f"(live ids {sh.ids()}, queued receivers {sorted({v['rid'] for v in sim.sent.values()})})"))
+                         f"(live ids {sh.ids()}, receivers of sent events without a live agent: {absent})"))
             break
         sent_at = {s: v["sent_at"] for s, v in sim.sent.items()}
         if k == "create":
@@ -191,11 +196,13 @@ def run_history(dt, ops):
         elif k == "step":
             hs, gone = out
             req.append("step")
-            real.append(f"step={sim.step_no};h={canon_handled([(a, s) for _, a, s in hs], sent_at)};d=" + (",".join(map(str, gone)) or "-"))
+            real.append(f"step={sim.step_no};h={canon_handled([(a, s) for _, a, s in hs], sent_at)}")
+            gone_log.append((sim.step_no, gone))
             for seq, rid, delay in sim.issued:       # sends made during the step, in the order they happened
                 req.append(send_line(rid, delay)); real.append(f"seq={seq}")
     # ---- reference check of the statement on the handler log
     by_seq = {}
+    pending = sim.pending()
     for st, agent, seq in sim.handled:
         by_seq.setdefault(seq, []).append((st, agent))
     for seq, v in sorted(sim.sent.items()):
@@ -213,7 +220,10 @@ def run_history(dt, ops):
                 viol.append(("delay-steps" if n > 0 or v["delay"] is not None else "undelayed-step",
                              f"{what} was handled in step {st}, expected step {due}"))
         if not hs and due <= sim.step_no and raised is None and v["rid"] in live_at.get(due, []):
-            viol.append(("lost", f"{what} was never handled although id {v['rid']} was alive in step {due} ({sim.step_no} steps run)"))
+            if seq in pending:
+                viol.append(("delay-steps", f"{what} is still queued after step {sim.step_no}, expected to be handled in step {due}"))
+            else:
+                viol.append(("lost", f"{what} was never handled although id {v['rid']} was alive in step {due} ({sim.step_no} steps run)"))
     order = {}
     for st, agent, seq in sim.handled:
         order.setdefault((st, agent, sim.sent[seq]["sent_at"]), []).append(seq)
@@ -221,7 +231,15 @@ def run_history(dt, ops):
         if seqs != sorted(seqs):
             viol.append(("same-step-order", f"agent {agent} handled the events sent to it in step {sa} in the order {seqs} (step {st}); send order is {sorted(seqs)}"))
             break
-    return {"req": req, "real": real, "viol": viol, "steps": sim.step_no, "nsent": sim.nseq, "nhandled": len(sim.handled)}
+    # DataCollector.event_statistics counts the delivered events (every delivered event is handled here)
+    try:
+        recorded = sum(n for per in sim.m.data_collector.event_statistics.values() for n in per.values())
+    except Exception:
+        recorded = None
+    if raised is None and recorded is not None and recorded != len(sim.handled) - sim.stats_base:
+        viol.append(("event-statistics", f"DataCollector.event_statistics counts {recorded} delivered events, {len(sim.handled) - sim.stats_base} handler invocations were logged since the last reset"))
+    return {"req": req, "real": real, "viol": viol, "steps": sim.step_no, "nsent": sim.nseq, "nhandled": len(sim.handled),
+            "ndropped": sum(len(g) for _, g in gone_log)}
 
 
 # ------------------------------------------------------------------ probes (one per repaired mechanism)
@@ -234,7 +252,7 @@ def probe():
         return r
     f = {}
     r = handled("1", [["create", 0]] * 4 + [["delete", [1]], ["send", 2, None, []], ["send", 3, None, []], ["send", 1, None, []], ["step", {}]])
-    f["routesById"] = r is not None and not r["viol"] and r["real"][-1] == "step=1;h=2@0:0;3@0:1;d=2"
+    f["routesById"] = r is not None and not r["viol"] and r["real"][-1] == "step=1;h=2@0:0;3@0:1"
     r = handled("0.1", [["create", 0], ["send", 0, "1.0", []]] + [["step", {}]] * 13)
     f["delayStepsExact"] = r is not None and not any(k == "delay-steps" for k, _ in r["viol"]) and r["nhandled"] == 1
     r = handled("1", [["create", 0], ["send", 0, "1", []], ["send", 0, "1", []], ["send", 0, "2", []], ["send", 0, "2", []]] + [["step", {}]] * 4)
@@ -409,9 +427,15 @@ def run(chk):
     rng = chk.rng.fork("c11")
     cases = []                                    # (dt, ops, tag)
     L = 3 if chk.quick else 4
+    cdir = os.path.join(VERIF, "corpus", "C11")          # minimised past failing inputs, run first
+    for fn in sorted(os.listdir(cdir)) if os.path.isdir(cdir) else []:
+        if fn.endswith(".json"):
+            c = json.load(open(os.path.join(cdir, fn)))
+            cases.append((c["dt"], c["ops"], "corpus"))
+    n_corpus = len(cases)
     for ops in small_histories(L):
         cases.append(("1", ops, "exh"))
-    n_exh = len(cases)
+    n_exh = len(cases) - n_corpus
     for i in range(350 if chk.quick else 6000):
         dt = DTS[i % len(DTS)]
         cases.append((dt, rand_history(rng, dt), "rand"))
@@ -422,10 +446,11 @@ def run(chk):
                        "None/0/multiples and non-multiples of dt; a case is (dt, history); non-trivial = at least one event handled after a "
                        "deletion/configure/reset or at least one delayed event handled")
     chk.cov["exhaustive_histories"] = n_exh
+    chk.cov["corpus_cases"] = n_corpus
     chk.cov["exhaustive"] = False
     req, real, index = [], [], []
     first = {}
-    dist = {"ops": {}, "dt": {}, "sent": 0, "handled": 0, "steps": 0}
+    dist = {"ops": {}, "dt": {}, "sent": 0, "handled": 0, "discarded": 0, "steps": 0}
     for dt, ops, tag in cases:
         r = run_history(dt, ops)
         index.append((len(req), dt, ops))
@@ -433,7 +458,7 @@ def run(chk):
         for o in ops:
             dist["ops"][o[0]] = dist["ops"].get(o[0], 0) + 1
         dist["dt"][dt] = dist["dt"].get(dt, 0) + 1
-        dist["sent"] += r["nsent"]; dist["handled"] += r["nhandled"]; dist["steps"] += r["steps"]
+        dist["sent"] += r["nsent"]; dist["handled"] += r["nhandled"]; dist["steps"] += r["steps"]; dist["discarded"] += r["ndropped"]
         nontriv = r["nhandled"] > 0 and (any(o[0] in ("delete", "configure", "reset") for o in ops) or
                                          any(o[0] == "send" and o[2] not in (None, "0") for o in ops))
         chk.case((dt, show(ops)), nontrivial=nontriv, sample={"dt": dt, "ops": show(ops)} if tag == "rand" and len(ops) < 16 else None)
@@ -472,7 +497,7 @@ def run(chk):
             p = dict(x.split("=", 1) for x in m.split(";"))
             now = int(p["step"])
             hs = [] if p["h"] == "-" else [tuple(map(int, x.split(":"))) for x in p["h"].split(",")]
-            model[i] = f"step={p['step']};h={canon_handled(hs, sent_at)};d={p['d']}"
+            model[i] = f"step={p['step']};h={canon_handled(hs, sent_at)}"      # when an event is discarded is not compared
         elif m.startswith("seq="):
             sent_at[int(m[4:])] = now
         elif m.startswith("seqs=") and m != "seqs=-":
@@ -495,6 +520,8 @@ def run(chk):
         chk.add_finding("delay-steps", f"handle_delayed_event keeps DelayedEvent(delay={a}) back for {c} steps with dt={b}; ceil(delay/dt) = {e}",
                         {"dt": b, "ops": [["create", 0], ["send", 0, a, []]] + [["step", {}]] * (max(c, e) + 2)})
     for name, keyname in (("routesById", "wrong-receiver"), ("delayStepsExact", "delay-steps"), ("requeueFifo", "same-step-order")):
+        if name == "routesById" and "receiver-lookup-raises" in first:
+            continue
         if not facts[name] and keyname not in first and not (keyname == "delay-steps" and lat_bad):
             chk.add_finding(keyname, f"probe {name} failed on the real code but no generated history violated the statement",
                             {"probe": name}, found_input=False)
